@@ -1143,7 +1143,65 @@ class FullEngine(Engine):
         """{a: x[a] for a in names} in heap S, as an opaque mapping value"""
         return z3.Function(f"attr_map@{self.dyn_key(S)}", Ref, T.SSeq, Ref)(x, names)
 
+    def _wl_src(self, e):
+        """`{t: F(linkset) for t, linkset in SRC.items()}` -> (SRC expression, F kind) or None"""
+        if not (isinstance(e, ast.DictComp) and len(e.generators) == 1):
+            return None
+        g = e.generators[0]
+        if not (isinstance(g.target, ast.Tuple) and len(g.target.elts) == 2 and all(isinstance(x, ast.Name) for x in g.target.elts) and not g.ifs
+                and isinstance(g.iter, ast.Call) and isinstance(g.iter.func, ast.Attribute) and g.iter.func.attr == "items" and not g.iter.args
+                and isinstance(e.key, ast.Name) and e.key.id == g.target.elts[0].id):
+            return None
+        inner = g.target.elts[1].id
+        v = e.value
+        txt = ast.unparse(v)
+        if txt == f"dict({inner})":
+            return g.iter.func.value, "deepcopy"
+        if txt == f"types.MappingProxyType(dict({inner}.items()))":
+            return g.iter.func.value, "snapshot-inner"
+        return None
+
+    def wl_build(self, p: Path, src: VRef, kind: str):
+        """a new mapping object built from the nested mapping `src`: 'snapshot' (immutable proxies at both levels: no mutable part),
+        'deepcopy' (new dict objects at both levels), 'shallow' (a new outer dict holding the inner dicts of src).  Iterating /
+        copying raises AttributeError or ValueError when the content does not have the shape {key: mapping} (uninterpreted wl_ok)."""
+        out = []
+        st0 = p.st.copy()
+        content = st0.read("wl_val", src.term)
+        if kind == "shallow":
+            oks = [(p, True)]
+        else:
+            oks = self.fork(p, T.wl_ok(content), "whitelist-shape")
+        for (q, ok) in oks:
+            if not ok:
+                out.append((q.copy(), VRaise("AttributeError", "edge_whitelist entry without items()")))
+                out.append((q, VRaise("ValueError", "edge_whitelist entry that dict() rejects")))
+                continue
+            r = self.alloc(q, self.ct.Other, "container", "mapping")
+            q.schemas.append(Schema(f"fresh-mapping({r})", (Ref, Ref), lambda o_, x, r=r, st0=st0: z3.Implies(x == r, z3.Not(st0.read("wl_part", o_, x))),
+                                    trigger=("wl_part",)))        # a new object is no part of an existing mapping
+            q.st.write("wl_val", r, content)
+            if kind == "snapshot":
+                q.st.write_where("wl_part", lambda ad, r=r: (T.eq(ad[0], r), z3.BoolVal(False)))
+            elif kind == "deepcopy":
+                q.st.write_where("wl_part", lambda ad, r=r: (T.eq(ad[0], r), z3.Or(ad[1] == r, T.wl_new(r, ad[1]))))
+                # the inner dicts are new objects: none of them is (part of) anything that existed
+                q.schemas.append(Schema(f"new-inner-dicts({r})", (Ref, Ref), lambda o_, x, r=r, st0=st0: z3.Implies(
+                    T.wl_new(r, x), z3.And(z3.Not(st0.read("wl_part", o_, x)), x != o_, x != r)), trigger=("wl_part",)))
+            else:
+                q.st.write_where("wl_part", lambda ad, r=r, st0=st0, s_=src.term: (
+                    T.eq(ad[0], r), z3.Or(ad[1] == r, z3.And(st0.read("wl_part", s_, ad[1]), ad[1] != s_))))
+            out.append((q, VRef(r, None, "opaque")))
+        return out
+
     def ev_DictComp(self, e, p):
+        w = self._wl_src(e)
+        if w is not None and w[1] == "deepcopy":
+            def kw_(q, sv):
+                if not (isinstance(sv, VRef) and sv.role == "opaque"):
+                    raise Unsupported("nested mapping source")
+                return self.wl_build(q, sv, "deepcopy")
+            return bind(self.eval(w[0], p), kw_)
         # {a: X[a] for a in NAMES}
         if len(e.generators) == 1:
             g = e.generators[0]
@@ -1190,6 +1248,15 @@ class FullEngine(Engine):
                 and f.value.func.id == "super":
             selfv = p.env.get("self") or p.env.get("cls")
             return self.eval_args(e, p, lambda q, args, kw: self.call_method(selfv, f.attr, args, kw, q, via_super=self.cur.cls))
+        # types.MappingProxyType({t: types.MappingProxyType(dict(linkset.items())) for t, linkset in SRC.items()}): immutable snapshot
+        if (isinstance(f, ast.Attribute) and f.attr == "MappingProxyType" and len(e.args) == 1 and not e.keywords):
+            w = self._wl_src(e.args[0])
+            if w is not None and w[1] == "snapshot-inner":
+                def ks_(q, sv):
+                    if not (isinstance(sv, VRef) and sv.role == "opaque"):
+                        raise Unsupported("nested mapping source")
+                    return self.wl_build(q, sv, "snapshot")
+                return bind(self.eval(w[0], p), ks_)
         # fmt.format(**mapping): the result is a function of the format value and the mapping (str.format, assumed not to raise)
         if (isinstance(f, ast.Attribute) and f.attr == "format" and not e.args and len(e.keywords) == 1 and e.keywords[0].arg is None):
             def kf(q, fv):
@@ -1863,6 +1930,8 @@ class FullEngine(Engine):
                 return [(p, sv)]
         if name == "dict" and not args:
             return [(p, self.new_dict(p))]
+        if name == "dict" and len(args) == 1 and isinstance(args[0], VRef) and args[0].role == "opaque" and getattr(self.cur, "module", "").endswith("universe"):
+            return self.wl_build(p, args[0], "shallow")
         if name == "hasattr" and len(args) == 2 and isinstance(args[0], VRef) and isinstance(args[1], VStr):
             return [(p, VBool(self.has_attr(p.st, args[0].term, args[1].term)))]
         if name == "getattr" and len(args) == 2 and isinstance(args[0], VRef) and isinstance(args[1], VStr):
